@@ -25,7 +25,7 @@ RULE = ('AES: two designs per run, each built by ONE shared AES() object whose u
         'rejected) x protocol-abiding, random, and LONG-IDLE load/req schedules (idle stretches in every waiting state longer '
         'than 2**width of every small register read off the built netlist, plus req/load at arbitrary phases); every output compared on every '
         'cycle; the step functions REGENERATED from prngs.py (Gen/PrngFrag.v) are run on the long-idle, suite-vector and '
-        'a sample of the other schedules (all of them in the thorough tier) and compared with the circuits too.  A case is distinct by (circuit, parameters, stimulus) and non-trivial when its outputs '
+        'a sample of the other schedules (every protocol-abiding one in the thorough tier) and compared with the circuits too.  A case is distinct by (circuit, parameters, stimulus) and non-trivial when its outputs '
         'take at least two values (AES pairs: always; PRNG schedules: at least one ready pulse).')
 IMPORTS = ('From Coq Require Import ZArith List.\nImport ListNotations.\nOpen Scope Z_scope.\n'
            'From PyRTL Require Import Lib.AesSpec Lib.AesModel Lib.PrngSpec Lib.PrngModel.\n')
@@ -777,7 +777,7 @@ def check_prngs(ctx):
                 tr.append(got)
                 rf.append(list(want))
         impl.append((tr, rf))
-        if style in ('idle', 'suite-vectors') or (ctx.tier != 'quick' and not (kind == 'triv' and bpc < 4 and style == 'random')) or (style == 'protocol' and (kind, bw) in (('lfsr', 129), ('lfsr', 256), ('xoro', 63), ('xoro', 129), ('triv', 200))):
+        if style in ('idle', 'suite-vectors') or (ctx.tier != 'quick' and style == 'protocol') or (style == 'protocol' and (kind, bw) in (('lfsr', 129), ('lfsr', 256), ('xoro', 63), ('xoro', 129), ('triv', 200))):
             exprs_g[ci] = {'lfsr': 'g_lfsr_sum %d %s' % (bw, quads(rle)), 'xoro': 'g_xo_sum %d %s' % (bw, quads(rle)),
                            'triv': 'g_tv_sum %d %d %s' % (bw, bpc or 0, quads(rle))}[kind]
         if kind == 'lfsr':
